@@ -62,7 +62,10 @@ CLAIMS = {
               "cell access the twin panics with causality k iff the reference step stops with race k, for every reachable "
               "related state), reported_race_is_real, no_missed_race_on_this_path (a completed run corresponds to a "
               "race-free reference execution) - proved by relating loom's clocks and textbook vector clocks through a "
-              "common clock-system abstraction. F17 repaired (3b12fce). Known: F7."),
+              "common clock-system abstraction; and the same exactness for channels / Notify / park / condvars (Props/Race2.lean, "
+              "under the run condition okRun), whose proof attempt found F26 (Notify::notify leaked causality to another "
+              "notifier; repaired c6f0cab, Race2.Repaired.* and a stored-path witness replayed through a checkpoint). F17 "
+              "repaired (3b12fce). Known: F7, F27 (SeqCst fence order treated as happens-before hides a race)."),
         ref="DESIGN.md §3 C04",
         technique="Lean 4 decision-logic theorems for the race detector + race oracles (RC11, SC+vector clocks) + decision replay"),
     "C05": dict(
@@ -153,14 +156,17 @@ CLAIMS = {
         text=("The twin is stateless by construction (Lean: step_resets, init_fresh, run_depends_on_path_only — thin); the "
               "substance is the correspondence: every program's full record (paths, clocks, thread and object tables of "
               "every iteration) must be identical alone in a fresh process, after all other programs in two orders "
-              "(also after failing models), on 8 OS threads running models concurrently, and on the twin."),
+              "(also after failing models), on 8 OS threads running models concurrently, and on the twin; iteration k re-executed as "
+              "the first iteration of a fresh process from its start path must give the same record; every iteration must "
+              "start from the initial explorer state (pos 0, not skipping, exploring as configured)."),
         ref="DESIGN.md §3 C16",
         technique="Lean 4 reset theorems (thin) + differential runs across process histories and concurrent OS threads"),
     "C18": dict(
         text=("Lean 4: Sched.yield_deprioritised (a yielded thread is chosen only if nothing is runnable; never becomes a "
               "backtrack alternative), yield_reactivated, Atomic.seen_before_yield_prune, Path.branch_limit. Progress "
               "and exit-outcome completeness are evaluated on await-loop families against the blocking-read reference; "
-              "unsatisfiable loops must hit the branch limit; explorer-twin correspondence."),
+              "unsatisfiable loops must hit the branch limit; explorer-twin correspondence. Families include loops written "
+              "yield-first and writers that go on after the flag (both sides take a ticket)."),
         ref="DESIGN.md §3 C18",
         technique="Lean 4 scheduler/yield laws + await-loop families vs blocking-read reference + twin correspondence"),
     "C19": dict(
@@ -194,8 +200,10 @@ CLAIMS = {
               "edge) on exhaustive small families: 1-3 threads x every access pattern of 2 keys x 3 destructor "
               "behaviours, init/drop counters and instance ids, UnsafeCell inside the lazy value as race probe; every "
               "iteration replayed on the twin. F14 (destructor order from a HashMap) was repaired (b67ec75); known "
-              "findings F20 (join returns before the thread's TLS destructors) and F22 (lazy statics torn down when the "
-              "main closure returns)."),
+              "findings F22 (lazy statics torn down when the main closure returns), F23 (raced initialiser runs twice), F24; F20 "
+              "(join before TLS destructors) repaired (e931437). Refinement theorem Props/Refine5.lean: every twin run "
+              "over the thread-local / lazy fragment is a reference execution (raced initialisation excluded by the "
+              "kernel-checked negative fact raced_init_not_reference)."),
         ref="DESIGN.md §3 C17",
         technique="Lean 4 theorems over the TLS/lazy-static model + reference outcomes + decision replay + cross-process determinism probe"),
     "C20": dict(
@@ -204,7 +212,9 @@ CLAIMS = {
               "the reference semantics (Spec/SC.lean: poll / register / re-check / wait phases) on families with one or "
               "two blocked futures and 1-2 wakers: wake by value / by reference / through AtomicWaker, before, during and "
               "after poll and registration, waker dropped, flag only, nobody waking (deadlock must be reported, not an "
-              "abort: F8 repaired in c00b711); outcomes and verdicts must be equal; every iteration replayed on the twin."),
+              "abort: F8 repaired in c00b711); outcomes and verdicts must be equal; every iteration replayed on the twin. "
+              "Refinement theorem Props/Refine4.lean (block_on modes 0-5, wakers, AtomicWaker): every twin run is a "
+              "reference execution with equal results, no_lost_wakeup."),
         ref="DESIGN.md §3 C20",
         technique="Lean 4 theorems over the block_on/AtomicWaker model + reference outcomes + decision replay"),
     "C14": dict(
